@@ -25,6 +25,7 @@ func c06Spaces(tier string) []pairLeg {
 		add("U5", noVoid(U(5)))
 		add("deep", Deep(true))
 		add("mixed", Mixed())
+		add("large", Large())
 		add("E3", EditStates(3, 4000))
 	} else {
 		add("A6x123", Arr(6, "123"))
@@ -38,6 +39,7 @@ func c06Spaces(tier string) []pairLeg {
 		add("U4", noVoid(U(4)))
 		add("deep", Deep(true))
 		add("mixed", Mixed())
+		add("large", Large())
 		add("E2", EditStates(2, 800))
 	}
 	return legs
